@@ -256,7 +256,12 @@ func (c *rapidContext) watchEvents(events <-chan supvmodel.Event) {
 		// When their are other event types then we would need to be selective,
 		// about what we send to handleShutdownEvent().
 		c.shutdownContext.handleProcessExit(*termination)
-		c.registrationService.CancelFlows(err)
+
+		// Exits caused by a shutdown in progress are expected. Cancelling flows for them
+		// could hit the flows of the next runtime domain generation if handled late.
+		if err != nil {
+			c.registrationService.CancelFlows(err)
+		}
 	}
 }
 
